@@ -866,6 +866,8 @@ builtinfunc(struct scope *s, enum builtinkind kind)
 		break;
 	case BUILTINOFFSETOF:
 		t = typename(s, NULL, NULL);
+		if (!t)
+			error(&tok.loc, "expected type name");
 		expect(TCOMMA, "after type name");
 		name = expect(TIDENT, "after ','");
 		if (t->kind != TYPESTRUCT && t->kind != TYPEUNION)
@@ -901,6 +903,8 @@ builtinfunc(struct scope *s, enum builtinkind kind)
 			e->base = mkunaryexpr(TBAND, e->base);
 		expect(TCOMMA, "after va_list");
 		e->type = typename(s, &e->qual, &toeval);
+		if (!e->type)
+			error(&tok.loc, "expected type name");
 		e->toeval = toeval;
 		break;
 	case BUILTINVACOPY:
